@@ -57,6 +57,7 @@ func init() {
 				{Pkg: "internal/validator", Fn: "VerifC09Equiv", Native: "VerifC09EquivNative", Reach: []string{"compile-failed", "validated-both"}, Bounds: map[string]any{"runs": 2}},
 				{Pkg: "internal/validator", Fn: "VerifC09TwoProfiles", Native: "VerifC09TwoProfilesNative", Reach: []string{"validated"}, Bounds: map[string]any{"profiles": 2, "orders": "B compiled after A | B validated from text after A was compiled | A, B, A compiled"}},
 				{Pkg: "internal/validator", Fn: "VerifC09History", CrossCheck: true, Native: "VerifC09HistoryNative", Reach: []string{"validated-3"}, Bounds: map[string]any{"history_length": 3}},
+				{Pkg: "internal/validator", Fn: "VerifC09LongHistory", Native: "VerifC09LongHistoryNative", Reach: []string{"validated-140"}, Bounds: map[string]any{"history_length": 140, "documents": "70 distinct documents, each validated twice through one compiled profile (all stages succeed)"}},
 				{Pkg: "internal/validator", Fn: "VerifC09IndexHistory", Native: "VerifC09IndexHistoryNative", Reach: []string{"indexed-3"}, Bounds: map[string]any{"history_length": 3, "units": "4 units over the same node ids: same root location with different library contents and ranges, one with another root"}},
 				{Pkg: "internal/validator", Fn: "VerifC09IndexFrame", Native: "VerifC09IndexFrameNative", Reach: []string{"indexed"}, Bounds: map[string]any{"graph_shapes": "the catalogue of C17 (type forms x lexical / source-information layouts)"}},
 			}
@@ -100,6 +101,7 @@ func init() {
 					{Pkg: "internal/parser/path", Fn: "VerifC16Parse5", Reach: []string{"accepted", "accepted-sentence", "rejected"}, Bounds: map[string]any{"length": "1..5 ASCII bytes", "paren_depth": 3}},
 					{Pkg: "internal/parser/path", Fn: "VerifC16Variants5", Reach: []string{"sentence"}, Bounds: map[string]any{"length": "1..5 ASCII bytes"}},
 					{Pkg: "internal/parser/path", Fn: "VerifC16Edits", CrossCheck: true, Reach: []string{"accepted", "rejected"}, Bounds: map[string]any{"sentences": 10, "edits": "insert/replace one symbolic byte at any position, delete one byte, append two symbolic bytes", "history": "nothing parsed before | the unedited sentence | that and a sequence written with and without blanks"}},
+					{Pkg: "internal/parser/path", Fn: "VerifC16LongGaps", Native: "VerifC16LongGaps", Reach: []string{"parsed"}, Bounds: map[string]any{"strings": "6 sentences x white-space runs of 15..257 bytes x 8 continuations (concrete strings far beyond the symbolic length bound)"}},
 					{Pkg: "internal/parser/path", Fn: "VerifC16Compose2", Reach: []string{"accepted", "rejected"}, Bounds: map[string]any{"composition": "2 predicates from {a.b, c.d} (repeats included), one symbolic operator byte from {| / blank ^ ( )} between them, an optional symbolic modifier byte from {^ blank * ) |} after each"}},
 					{Pkg: "internal/parser/path", Fn: "VerifC16Compose3", Reach: []string{"accepted", "rejected"}, Bounds: map[string]any{"composition": "3 predicates from {a.b, c.d} (repeats included), one symbolic operator byte from {| / blank ^ ( )} between them, an optional symbolic modifier byte from {^ blank * ) |} after each"}},
 				}
@@ -107,6 +109,7 @@ func init() {
 			return []HarnessSpec{
 				{Pkg: "internal/parser/path", Fn: "VerifC16Variants3", Reach: []string{"sentence"}, Bounds: map[string]any{"length": "1..3 ASCII bytes"}},
 				{Pkg: "internal/parser/path", Fn: "VerifC16Edits", CrossCheck: true, Reach: []string{"accepted", "rejected"}, Bounds: map[string]any{"sentences": 10, "edits": "insert/replace one symbolic byte at any position, delete one byte, append two symbolic bytes", "history": "nothing parsed before | the unedited sentence | that and a sequence written with and without blanks"}},
+				{Pkg: "internal/parser/path", Fn: "VerifC16LongGaps", Native: "VerifC16LongGaps", Reach: []string{"parsed"}, Bounds: map[string]any{"strings": "6 sentences x white-space runs of 15..257 bytes x 8 continuations (concrete strings far beyond the symbolic length bound)"}},
 				{Pkg: "internal/parser/path", Fn: "VerifC16Compose2", Reach: []string{"accepted", "rejected"}, Bounds: map[string]any{"composition": "2 predicates from {a.b, c.d} (repeats included), one symbolic operator byte from {| / blank ^ ( )} between them, an optional symbolic modifier byte from {^ blank * ) |} after each"}},
 				{Pkg: "internal/parser/path", Fn: "VerifC16Parse4", Reach: []string{"accepted", "accepted-sentence", "rejected"}, Bounds: map[string]any{"length": "1..4 ASCII bytes", "paren_depth": 3}},
 			}
@@ -303,7 +306,8 @@ func init() {
 		ID: "C12", Level: "translation_validation", Extra: regoC12,
 		Rule: "gosym: one state = one feasible path of BuildReport over a result tree of nondeterministic shape and one map-order policy; regosym: one program = one profile of the families, whose emitted module is evaluated on a symbolic graph and every result object it can produce is checked for shape",
 		Harnesses: func(tier string) []HarnessSpec {
-			return []HarnessSpec{{Pkg: "internal/validator", Fn: "VerifC12Ids", Reach: []string{"ids-defined"}, Bounds: map[string]any{"depth": "1..3", "traces_per_result": "1..2", "sub_results_per_trace": "0..2", "locations": "none|all", "results": "1..2 violations, 0..1 warnings, 0..1 infos", "map_orders": "canonical | all reversed | all rotated"}}}
+			return []HarnessSpec{{Pkg: "internal/validator", Fn: "VerifC12Ids", Reach: []string{"ids-defined"}, Bounds: map[string]any{"depth": "1..3", "traces_per_result": "1..2", "sub_results_per_trace": "0..2", "locations": "none|all", "results": "1..2 violations, 0..1 warnings, 0..1 infos", "map_orders": "canonical | all reversed | all rotated"}},
+				{Pkg: "internal/validator", Fn: "VerifC12ManyResults", Native: "VerifC12ManyResults", Reach: []string{"ids-defined"}, Bounds: map[string]any{"results_per_level": "(12, 9, 0) | (9, 0, 17) | (33, 1, 10) with traces and sub-results: two-digit ordinals"}}}
 		},
 		Assumptions: []string{
 			"result trees are built from the three constructors the Rego preamble has (result, trace, location); the same shape parameters are used at every level of a tree (bound)",
